@@ -354,4 +354,83 @@ def macPadded (sep : Char) (a : List Char) : List Char :=
 def IsBroadcast (addr plen b : Nat) : Prop :=
   ∀ i, b.testBit i = (decide (i < 32 - plen) || addr.testBit i)
 
+/-! ## 5. The front end's platform-conditional branches -/
+
+inductive FrontClass
+  /-- transforms a value; modelled (`Model.front*`), driven under emulation -/
+  | modelled
+  /-- modelled earlier: `net_if_addrs()` (MAC padding, AF_LINK, Windows broadcast) -/
+  | netIfAddrs
+  /-- only decides whether a method / function exists on the platform: covered by `C20_api_names` -/
+  | apiSurface
+  /-- the branch is taken on Linux only (other properties' business); off Linux it is the identity -/
+  | linuxOnly
+  /-- chooses which cache / which platform primitive is used, no value is transformed -/
+  | noValue
+  /-- transforms behaviour but is NOT modelled here (reason in notes/C20.md) -/
+  | notModelled
+  deriving DecidableEq, Repr
+
+/-- every `if` / conditional expression inside a function or class body of `psutil/__init__.py`
+    whose test names a platform constant: (where, test, classification), in source order -/
+def frontBranches : List (String × String × FrontClass) :=
+  [ ("Process._get_ident", "WINDOWS", .notModelled),
+    ("Process.__eq__", "OPENBSD or NETBSD", .notModelled),
+    ("Process.oneshot", "POSIX", .noValue),
+    ("Process.oneshot", "POSIX", .noValue),
+    ("Process.ppid", "POSIX", .modelled),
+    ("Process.name", "WINDOWS and self._name is not None", .modelled),
+    ("Process.name", "POSIX", .modelled),
+    ("Process.name", "POSIX and len(bname) >= 15", .modelled),
+    ("Process.username", "POSIX", .modelled),
+    ("Process", "POSIX", .apiSurface),
+    ("Process.cpu_affinity", "LINUX", .modelled),
+    ("Process", "WINDOWS", .apiSurface),
+    ("Process", "POSIX", .apiSurface),
+    ("Process._send_signal", "OPENBSD and pid_exists(pid)", .notModelled),
+    ("Process.send_signal", "POSIX", .notModelled),
+    ("Process.suspend", "POSIX", .noValue),
+    ("Process.resume", "POSIX", .noValue),
+    ("Process.terminate", "POSIX", .noValue),
+    ("Process.kill", "POSIX", .noValue),
+    ("pid_exists", "pid == 0 and POSIX", .modelled),
+    ("_cpu_tot_time", "LINUX", .linuxOnly),
+    ("cpu_freq", "LINUX and cpu.min is None", .linuxOnly),
+    ("disk_io_counters", "LINUX", .modelled),
+    ("net_if_addrs", "WINDOWS and fam == -1", .netIfAddrs),
+    ("net_if_addrs", "POSIX", .netIfAddrs),
+    ("net_if_addrs", "WINDOWS and fam in {socket.AF_INET, socket.AF_INET6}", .netIfAddrs) ]
+
+/-- `Process.ppid()`: "On Windows the return value is cached after first call" — on POSIX the
+    current parent; on Windows the first answer for good -/
+def ppidExpected (posix : Bool) (cached : Option Nat) (native : Nat) : Nat :=
+  match posix, cached with
+  | false, some c => c
+  | _, _ => native
+
+/-- `Process.name()`: "On Windows the return value is cached after first call"; on UNIX a name
+    truncated by the kernel (≥ 15 bytes) is replaced by the base name of `cmdline()[0]` when that
+    begins with it; in every other case it is the platform layer's name -/
+def nameExpected (windows posix : Bool) (cached : Option String) (native : String) (argv : Option (List String)) :
+    String :=
+  match windows, cached with
+  | true, some c => c
+  | _, _ =>
+    match argv with
+    | some (a0 :: _) =>
+      let b := ((a0.splitOn "/").getLast?).getD ""
+      if posix && 15 ≤ native.length && native.toList.isPrefixOf b.toList then b else native
+    | _ => native
+
+/-- `Process.username()`: "On UNIX this is calculated by using *real* process uid" -/
+def usernameExpected (posix : Bool) (realUid : Nat) (pw : Option String) (native : String) : String :=
+  match posix, pw with
+  | true, some n => n
+  | true, none => toString realUid
+  | false, _ => native
+
+/-- `pid_exists(0)` on POSIX: PID 0 is never signalled; it exists iff it is listed -/
+def pidExistsExpected (posix : Bool) (pid : Int) (pids : List Nat) (native : Bool) : Bool :=
+  if pid < 0 then false else if posix && pid == 0 then 0 ∈ pids else native
+
 end Psutil.C20.Spec
